@@ -117,6 +117,7 @@ func TestC15_TaxAndLimits(t *testing.T) {
 		var pool []rec
 		var log []string
 		fracTax, edgeSend, failBetween, taxChanged, cancelAfterTaxChange := false, false, false, false, false
+		limitReissued := false
 		accepted, lastFailed := 0, false
 		known := map[uint64]bool{}
 
@@ -152,6 +153,19 @@ func TestC15_TaxAndLimits(t *testing.T) {
 				rate, _ = new(big.Rat).SetString(rateStr)
 				taxChanged = true
 				log = append(log, fmt.Sprintf("h%d:tax(%s,exempt=%d)", b.H, rateStr, taxExempt))
+			}
+			if hasLimit && rapid.IntRange(0, 7).Draw(t, "reissueLimit?") == 0 {
+				// governance passes the very same limit again (same amount, period and exemptions) in the middle of a
+				// window: the allowance already used in that window stays used
+				bl := &skywaytypes.BridgeTransferLimit{Token: tok.Denom, Limit: sdkmath.NewIntFromBigInt(limit), LimitPeriod: period}
+				if limitExempt >= 0 {
+					bl.ExemptAddresses = []sdk.AccAddress{users[limitExempt].Addr}
+				}
+				if err := k.SetBridgeTransferLimit(b.Ctx(), bl); err != nil {
+					t.Fatalf("limit: %v", err)
+				}
+				limitReissued = true
+				log = append(log, fmt.Sprintf("h%d:limitReissued", b.H))
 			}
 			if rapid.IntRange(0, 5).Draw(t, "cancel?") == 0 && len(pool) > 0 {
 				i := rapid.IntRange(0, len(pool)-1).Draw(t, "which")
@@ -300,6 +314,9 @@ func TestC15_TaxAndLimits(t *testing.T) {
 		}
 		if cancelAfterTaxChange {
 			labels = append(labels, "cancelAfterTaxChange")
+		}
+		if limitReissued {
+			labels = append(labels, "limitReissuedMidHistory")
 		}
 		evid.Case(t.Name(), fmt.Sprintf("rate=%s exT=%d limit=%v %s/%s exL=%d | %s", rateStr, taxExempt, hasLimit, limit, period, limitExempt, strings.Join(log, " ")), fracTax || edgeSend || failBetween, labels, func() any {
 			return map[string]any{"rate": rateStr, "limit": fmt.Sprintf("%v %s per %s", hasLimit, limit, period), "history": log}
